@@ -227,6 +227,58 @@ theorem concurrent_same_name_one_winner (r : Reg) (hr : r.Nodup) (wants : List P
     · intro a b p q _ h; simp [List.getElem?_map] at h
   exact (registry_functional _ sched h0).2.2 a b p q hab ha hb
 
+/-! ### concurrent ensures of one definition -/
+
+/-- **Ensure is idempotent under races.** Any number of callers ensure one name with one definition
+(`SameDef d`), on a registry that has no pipe of that name or one with that definition; whatever the
+interleaving of their critical sections (GetPipe, CreatePipe's two sections, up to three attempts each),
+every caller that has returned got a pipe with that definition — none fails, none sees a conflict — and the
+registry holds at most that definition under the name. -/
+theorem ensure_same_definition_all_succeed (d : Pipe) (r : Reg) (hr : RegGood d r)
+    (callers : List Pipe) (hc : ∀ p ∈ callers, SameDef d p) (sched : List Nat) :
+    let s := erun ⟨r, callers.map (fun p => (p, Epc.get 0))⟩ sched
+    (∀ (a : Nat) (p : Pipe) (res : Res), s.pcs[a]? = some (p, Epc.done res) → ∃ q, res = .ok q ∧ SameDef d q) ∧
+    RegGood d s.reg := by
+  intro s
+  have h0 : EInv d ⟨r, callers.map (fun p => (p, Epc.get 0))⟩ := by
+    refine ⟨hr, ?_⟩
+    intro x hx
+    obtain ⟨p, hp, rfl⟩ := List.mem_map.mp hx
+    exact ⟨hc p hp, by simp⟩
+  have hinv := erun_inv d _ sched h0
+  refine ⟨?_, hinv.1⟩
+  intro a p res ha
+  have := hinv.2 (p, Epc.done res) (List.mem_of_getElem? ha)
+  exact this.2
+
+/-- no caller ever needs the third attempt (so the "Oops" exit of the three-attempt loop is unreachable
+without concurrent deletes) -/
+theorem ensure_never_exhausts_attempts (d : Pipe) (r : Reg) (hr : RegGood d r)
+    (callers : List Pipe) (hc : ∀ p ∈ callers, SameDef d p) (sched : List Nat) (a : Nat) (p : Pipe) :
+    (erun ⟨r, callers.map (fun p => (p, Epc.get 0))⟩ sched).pcs[a]? ≠ some (p, Epc.done .failed) := by
+  intro h
+  obtain ⟨q, hq, _⟩ := (ensure_same_definition_all_succeed d r hr callers hc sched).1 a p _ h
+  cases hq
+
+/-! ### the listing and its pages together -/
+
+/-- **Walking SHOW PIPES with OFFSET/LIMIT pages visits every pipe exactly once, in alphabetical order**:
+the pages of the listing the code computes (for any map iteration order) concatenate to a list that is
+sorted and a permutation of the registry's names. -/
+theorem paged_walk_visits_each_pipe_once (order : List Pipe) (k pages : Nat) (hk : 0 < k)
+    (hp : order.length ≤ pages * k) (hkm : (k : Int) ≤ maxInt64) (hpm : ((pages * k : Nat) : Int) ≤ maxInt64) :
+    let names := (listing order).map (·.name)
+    let walk := ((List.range pages).map (fun i =>
+      (showPipes names (some (k : Int)) (some ((i * k : Nat) : Int))).getD [])).flatten
+    walk.Pairwise (fun a b => bytesLe a b = true) ∧ walk.Perm (order.map (·.name)) := by
+  intro names walk
+  obtain ⟨hs, hperm⟩ := listing_sorted order
+  have hlen : names.length ≤ pages * k := by
+    simp only [names, List.length_map]; rw [hperm.length_eq]; exact hp
+  have hw : walk = names := paging_partition names k pages hk hlen hkm hpm
+  rw [hw]
+  exact ⟨by simp only [names]; rw [List.pairwise_map]; exact hs, hperm.map _⟩
+
 /-! ### non-vacuity: the hypotheses above are met by concrete, non-trivial states -/
 
 def pA : Pipe := ⟨[97], [], []⟩
@@ -247,5 +299,9 @@ example : (crun true ⟨[], [(pA, .start), (pA', .start)]⟩ [0, 1, 1, 0]).pcs =
 theorem cex_without_recheck :
     (crun false ⟨[], [(pA, .start), (pA', .start)]⟩ [0, 1, 1, 0]).pcs = [(pA, .done true), (pA', .done true)] := by
   decide
+
+-- three racing ensures of one fresh name: the interleaving below ends with all three holding the pipe
+example : (erun ⟨[], [(pA, .get 0), (pA, .get 0), (pA, .get 0)]⟩ [0, 1, 2, 0, 1, 2, 2, 1, 0, 0, 1, 2]).pcs =
+    [(pA, .done (.ok pA)), (pA, .done (.ok pA)), (pA, .done (.ok pA))] := by decide
 
 end Logrange.Props.C19
